@@ -233,7 +233,11 @@ func (ctx *genericEncrypter) Encrypt(plaintext []byte) (*JsonWebEncryption, erro
 // Implementation of encrypt method producing a JWE object.
 func (ctx *genericEncrypter) EncryptWithAuthData(plaintext, aad []byte) (*JsonWebEncryption, error) {
 	obj := &JsonWebEncryption{}
-	obj.aad = aad
+	// Keep a private copy: the object must not change when the caller reuses its slice.
+	if aad != nil {
+		obj.aad = make([]byte, len(aad))
+		copy(obj.aad, aad)
+	}
 
 	obj.protected = &rawHeader{
 		Enc: ctx.contentAlg,
